@@ -317,7 +317,8 @@ impl<'a> RecordView<'a> {
         let data_len = self.data.len();
         let header_len = self.header_len() as usize;
 
-        if data_len <= header_len {
+        // `==` is a complete record without payload (all columns variable-width and empty/NULL)
+        if data_len < header_len {
             return 0;
         }
 
